@@ -10,6 +10,7 @@ use iggy::confirmation::Confirmation;
 use iggy::error::IggyError;
 use iggy::messages::send_messages::Message;
 use iggy::models::messages::POLLED_MESSAGE_METADATA;
+use iggy::utils::sizeable::Sizeable;
 use iggy::utils::timestamp::IggyTimestamp;
 use std::sync::{atomic::Ordering, Arc};
 use tracing::{trace, warn};
@@ -370,7 +371,7 @@ impl Partition {
             }
         }
 
-        let batch_size = appendable_batch_info.batch_size
+        let mut batch_size = appendable_batch_info.batch_size
             + ((POLLED_MESSAGE_METADATA * messages.len() as u32) as u64).into();
         let base_offset = if !self.should_increment_offset {
             0
@@ -387,6 +388,9 @@ impl Partition {
                         "Ignored the duplicated message ID: {} for partition with ID: {}.",
                         message.id, self.partition_id
                     );
+                    // A dropped duplicate is not stored: it must not be counted in the batch size either.
+                    batch_size -=
+                        message.get_size_bytes() + (POLLED_MESSAGE_METADATA as u64).into();
                     continue;
                 }
                 let now = IggyTimestamp::now().as_micros();
